@@ -18,6 +18,7 @@ mod pools;
 mod rng;
 mod sched;
 mod stream;
+mod vocab;
 
 /// Expand `$body` with `$c` bound to the generic check for property `$id`.
 macro_rules! dispatch {
